@@ -125,7 +125,8 @@ class DataGen(object):
                 elif x < 0.8:
                     item = ("u", "")
                 else:
-                    item = ("h", 255, "FF")
+                    hv = r.choice([255, 0, 0x7FFF, 0x8000, 0x8001, 0xFFFF, 0x10])
+                    item = ("h", hv, "%X" % hv)
                 tg = r.choice([("var", "D"), ("var", "E"), ("arr", "G", [n(i)])])
             targets.append(tg)
             items.append(item)
@@ -155,7 +156,8 @@ class DataGen(object):
                 ("fn", "CHR$", [n(65)]), ("fn", "TAB", [n(r.randint(0, 12))]), ("fn", "LEN", [("var", "A$")]),
                 # numeric constants of every shape: fractions below one, zero, negative, many digits, hex
                 r.choice([n(0.5), n(0.25), ("num", 0.5, ["0.5"]), n(0.015625), n(0), ("un", "-", n(3)), ("un", "-", n(0.75)),
-                          n(123456), n(100.125), ("hex", 255, "FF"), ("num", 12.0, ["12."]), ("num", 7.0, ["007"])])]
+                          n(123456), n(100.125), ("hex", 255, "FF"), ("num", 12.0, ["12."]), ("num", 7.0, ["007"]),
+                          ("hex", 0x8000, "8000"), ("hex", 0x7FFF, "7FFF"), ("hex", 0xFFFF, "FFFF"), n(32768), n(65535)])]
         k = r.randint(0, 4)
         items = []
         if r.random() < 0.25:
